@@ -1686,45 +1686,65 @@ def r056(P, u, E, cat, rep):
 # ------------------------------------------------------------------------------------------------
 # R05.1 (parser side): an aggregate initialised by an expression of its own type is copied as a whole
 # ------------------------------------------------------------------------------------------------
+def _copy_interp(P, u, mk_expr_type):
+    """initializer2 on an initializer that starts neither with `{` nor with a designator: `assign` yields an expression whose type is
+    made by mk_expr_type(ctx); the nested parser calls are cut and recorded"""
+    def m_equal(it, ctx, n, a):
+        return 0          # the initializer starts neither with `{` nor with a designator
+
+    def m_assign(it, ctx, n, a):
+        node = Obj('Node', lazy=True, label='initializer-expr')
+        node.fields['ty'] = mk_expr_type(ctx)
+        _set_rest(it, ctx, a[0], 'tok-after-expr')
+        ctx.emit('assign', node, n.line)
+        return node
+
+    def h_sub(name):
+        def f(it, ctx, n, a):
+            _set_rest(it, ctx, a[0], 'tok-after-' + name)
+            ctx.emit('sub', name, a, n.line)
+            return None
+        return f
+    return TInterp(P, u, {'models': {'equal': m_equal, 'assign': m_assign, 'struct_initializer2': h_sub('struct_initializer2')},
+                          'cut': {'initializer2': h_sub('initializer2')}, 'opaque': ['add_type', 'consume', 'skip'],
+                          'lazy_field': children_hook(), 'track_stores': True})
+
+
+def _mk_copy_args(E, kind, concrete_type):
+    def mk(ctx):
+        init = Obj('Initializer', lazy=True, label='init')
+        ty = Obj('Type', lazy=True, label='init.ty')
+        ty.fields['kind'] = E[kind]
+        if concrete_type:
+            # a complete, non-empty, unqualified aggregate type (the declared type itself, not a copy of it)
+            ty.fields['members'] = Obj('Member', lazy=True, label='init.ty.members')
+            ty.fields['origin'] = 0
+            ty.fields['size'] = Sym('init.ty.size', 'int')
+            ty.fields['align'] = Sym('init.ty.align', 'int')
+        init.fields['ty'] = ty
+        init.fields['expr'] = 0
+        tok = Obj('Token', lazy=True, label='tok')
+        tok.fields['kind'] = E['TK_IDENT'] if 'TK_IDENT' in E else 0
+        ctx.root_init = init
+        ctx.root_tok = tok
+        ctx.slot = _Slot()
+        return [_Ref(ctx.slot), tok, init]
+    return mk
+
+
 def r051_copy(P, u, E, rep):
     fn = 'initializer2'
     _need(u, fn, 'union_initializer')
     result = {}
+    kind_name = {}
+    for nm in u.enum_types.get('TypeKind', []):
+        kind_name.setdefault(E[nm], nm)
     for kind, word in (('TY_STRUCT', 'struct'), ('TY_UNION', 'union')):
-        def m_equal(it, ctx, n, a):
-            return 0          # the initializer starts neither with `{` nor with a designator
-
-        def m_assign(it, ctx, n, a, kind=kind):
-            node = Obj('Node', lazy=True, label='%s-valued-expr' % kind[3:].lower())
-            # an expression of the SAME type as the object: its type is the object's type
-            node.fields['ty'] = ctx.root_init.fields['ty']
-            _set_rest(it, ctx, a[0], 'tok-after-expr')
-            ctx.emit('assign', node, n.line)
-            return node
-
-        def h_sub(name):
-            def f(it, ctx, n, a):
-                _set_rest(it, ctx, a[0], 'tok-after-' + name)
-                ctx.emit('sub', name, a, n.line)
-                return None
-            return f
-        it = TInterp(P, u, {'models': {'equal': m_equal, 'assign': m_assign, 'struct_initializer2': h_sub('struct_initializer2')},
-                            'cut': {'initializer2': h_sub('initializer2')}, 'opaque': ['add_type', 'consume', 'skip'],
-                            'lazy_field': children_hook(), 'track_stores': True})
-
-        def mk(ctx, kind=kind):
-            init = Obj('Initializer', lazy=True, label='init')
-            ty = Obj('Type', lazy=True, label='init.ty')
-            ty.fields['kind'] = E[kind]
-            init.fields['ty'] = ty
-            init.fields['expr'] = 0
-            tok = Obj('Token', lazy=True, label='tok')
-            tok.fields['kind'] = E['TK_IDENT'] if 'TK_IDENT' in E else 0
-            ctx.root_init = init
-            ctx.slot = _Slot()
-            return [_Ref(ctx.slot), tok, init]
+        where = _w(u, 'union_initializer' if kind == 'TY_UNION' else fn)
+        # ---- (a) an expression of the object's own type (the very same Type) ---------------------------------------------
+        it = _copy_interp(P, u, lambda ctx: ctx.root_init.fields['ty'])
         n = 0
-        for ctx, out in it.explore(fn, mk):
+        for ctx, out in it.explore(fn, _mk_copy_args(E, kind, False)):
             if out[0] != 'ret':
                 continue
             n += 1
@@ -1739,9 +1759,105 @@ def r051_copy(P, u, E, rep):
                    'an object of %s type initialised by an expression of the same %s type (`%s T x = y;`) is not copied as a whole: the expression is %s '
                    '(for a union: the ADDRESS bits of y end up in the first member), while the struct case assigns the whole object'
                    % (word, word, word, 'handed to the first member as if it were that member\'s initializer' if subs else 'dropped'),
-                   where=_w(u, 'union_initializer' if kind == 'TY_UNION' else fn), facts={'path': ctx.trail})
+                   where=where, facts={'path': ctx.trail})
         if n == 0:
             rep.undecided('R05.1', '%s:%s:%s-valued-initializer' % (U, fn, word), 'no returning path')
+        if not result.get(word):
+            continue        # no whole-object copy at all for this kind: nothing to delimit
+        # ---- (b) an expression whose type is a copy_type() copy of the object's type (a parameter, an _Atomic-qualified object):
+        #          another Type node with the same members whose origin is the object's type -- still the same C type ------------
+        def mk_alias(ctx):
+            ty = ctx.root_init.fields['ty']
+            t2 = Obj('Type', lazy=True, label='copy-of-init.ty')
+            for f in ('kind', 'members', 'size', 'align'):
+                t2.fields[f] = ty.fields[f]
+            t2.fields['origin'] = ty
+            return t2
+        it = _copy_interp(P, u, mk_alias)
+        n = 0
+        for ctx, out in it.explore(fn, _mk_copy_args(E, kind, True)):
+            if out[0] != 'ret':
+                continue
+            n += 1
+            init = ctx.root_init
+            asg = [e for e in ctx.events if e[0] == 'assign']
+            copied = bool(asg) and field(init, 'expr') is asg[-1][1]
+            rep.ob('R05.1', '%s:%s:%s-valued-initializer/type-copy/%s' % (U, fn, word, 'copied' if copied else 'not-recognised-as-the-same-type'), copied,
+                   'an object of %s type initialised by an expression whose Type node is a copy_type() copy of the object\'s type (same members, origin = the object\'s type: '
+                   'a %s parameter, `void f(%s T p) { %s T x = p; }`) is not copied as a whole: the expression is handed to the first member'
+                   % (word, word, word, word), where=where, facts={'path': ctx.trail})
+        if n == 0:
+            rep.undecided('R05.1', '%s:%s:%s-valued-initializer/type-copy' % (U, fn, word), 'no returning path')
+        # ---- (c) an expression of ANY OTHER type (another struct/union type, a scalar, ...) is not the value of the whole object
+        #          (C11 6.7.9p13); by brace elision (p20) it initialises the first member / the members in order ------------------
+        def mk_other(ctx):
+            t2 = Obj('Type', lazy=True, label='type-of-expr')
+            t2.fields['members'] = Obj('Member', lazy=True, label='type-of-expr.members')
+            t2.fields['origin'] = 0
+            t2.fields['size'] = Sym('type-of-expr.size', 'int')
+            t2.fields['align'] = Sym('type-of-expr.align', 'int')
+            ctx.other_ty = t2
+            return t2
+        it = _copy_interp(P, u, mk_other)
+        n = nsame = 0
+        for ctx, out in it.explore(fn, _mk_copy_args(E, kind, True)):
+            init = ctx.root_init
+            asg = [e for e in ctx.events if e[0] == 'assign']
+            if not asg:
+                continue
+            k = settle(it, field(ctx.other_ty, 'kind')) if 'kind' in ctx.other_ty.fields else None
+            if isinstance(k, int) and k == E[kind]:
+                cls = 'another-%s-type' % word
+                nsame += 1
+            elif isinstance(k, int) and k in kind_name:
+                cls = 'type-kind-' + kind_name[k]
+            else:
+                cls = 'non-%s-type' % word
+            key = '%s:%s:%s-object/expr-of-%s' % (U, fn, word, cls)
+            n += 1
+            if out[0] != 'ret':
+                if out[1] in ('error_tok', 'error_at', 'error'):
+                    rep.ob('R05.1', key + '/rejected', False,
+                           'initializer2 stops with %s() when a %s sub-object is initialised without braces by an expression of %s: by brace elision (C11 6.7.9p20) the expression '
+                           'initialises the first member' % (out[1], word, cls.replace('-', ' ')), where='%s:%d' % (U, out[3]), facts={'path': ctx.trail})
+                continue
+            ex = settle(it, init.fields.get('expr'))
+            subs = [e for e in ctx.events if e[0] == 'sub']
+            if ex is asg[-1][1] or any(ex is e[1] for e in asg):
+                rep.ob('R05.1', key + '/copied-as-whole-object', False,
+                       ('a %s sub-object initialised without braces by an expression of %s is recorded as a whole-object copy from that expression (init->expr): only an expression '
+                        'of the object\'s own type is the value of the whole object (C11 6.7.9p13); by brace elision (p20) this one initialises the FIRST MEMBER. With '
+                        '`%s T2 { %s T1 m; long rest[4]; }` and y of type T1, `struct W { %s T2 t; int k; } w = { y, 7 };` copies sizeof(T2) bytes out of y (bytes behind y land in '
+                        'the members that must be zero) and the 7 goes to the wrong member' % (word, cls.replace('-', ' '), word, word, word)),
+                       where=where, facts={'path': ctx.trail})
+                continue
+            ok, msg, construct = True, '', 'initialises-first-member'
+            if not is_null(ex) or 'expr' not in init.fields:
+                ok = False; construct = 'expr-left-set'; msg = 'init->expr of the %s object is %s after an expression of another type was parsed' % (word, show(ex))
+            elif len(subs) != 1:
+                ok = False; construct = 'dropped' if not subs else 'parsed-twice'
+                msg = 'an expression of %s given for a %s sub-object without braces leads to %d nested initializer parses (expected one: the first member)' % (cls.replace('-', ' '), word, len(subs))
+            else:
+                a = subs[0][2]
+                if len(a) < 3 or settle(it, a[1]) is not ctx.root_tok:
+                    ok = False; construct = 'not-reparsed-from-its-first-token'
+                    msg = 'after looking at the type of the expression, the nested initializer parse does not start again at the first token of that expression: the expression is skipped'
+                elif subs[0][1] == 'struct_initializer2':
+                    first = field(init.fields['ty'], 'members')
+                    if settle(it, a[2]) is not init or len(a) < 4 or settle(it, a[3]) is not first:
+                        ok = False; construct = 'not-from-first-member'; msg = 'the brace-elided member walk of the struct does not start at its first member'
+                else:
+                    kk = _child_key(ctx, a[2], it)
+                    first = field(init.fields['ty'], 'members')
+                    fidx = first.fields.get('idx') if isinstance(first, Obj) else None
+                    if not (kk == 0 or (fidx is not None and kk == vkey(fidx))):
+                        ok = False; construct = 'not-the-first-member'; msg = 'the expression is parsed into child %s of the union, not into the child of its first member' % show_key(kk)
+                    elif not same(it, init.fields.get('mem', 0), first):
+                        ok = False; construct = 'first-member-not-selected'; msg = 'the expression is parsed for the first member but init->mem does not select that member'
+            rep.ob('R05.1', key + '/' + construct, ok, msg, where=where, facts={'path': ctx.trail})
+        if n == 0 or nsame == 0:
+            rep.undecided('R05.1', '%s:%s:%s-object/expr-of-other-type' % (U, fn, word),
+                          'no path on which the %s arm of initializer2 looks at an expression of another %s type (%d paths)' % (word, word, n))
     return result
 
 
